@@ -175,6 +175,18 @@ check("C19", "TLC enumeration of MCCss families with provenance ids + source-map
       "DESIGN.md §4.6, §6 C19", CSS_NOTE)
 
 
+check("C01", "TLC enumeration of the WxmlGen / CssGen generator machines (all paths to a length bound, simulation walks) replayed through every entry point in isolated workers with parser-event fuel + CursorTrace validation of recorded parser traces + growth sweep",
+      "TLC checks the two generator machines well formed and connected and enumerates every path (every prefix is an input: end of "
+      "input in every lexical context; classes include non-ASCII white space, NUL, astral characters, stray closers, literals around "
+      "2^63 in three radices, unterminated strings/comments/urls), plus 120-step simulation walks and a nesting family to depth 64; "
+      "each spelled input runs through add_tmpl (normal and dev), every emitter, dependency queries, stringify with and without "
+      "mangling twice, and the stylesheet transformer under 192 cycling option sets, in worker processes with an address-space limit, "
+      "a wall-clock budget and a per-input parser-event fuel (cfg-guarded hook); outcome ok / panic / hang / abort.  Recorded parser "
+      "traces of a sample are validated against CursorTrace.  Repository test inputs and seeded mutations are added.  33 shape families "
+      "at doubling sizes bound CPU, peak memory, parser events and output size growth.",
+      "DESIGN.md §4.1, §6 C01")
+
+
 def main():
     props = [json.loads(l) for l in open(os.path.join(HERE, "properties.jsonl"))]
     ids = [p["id"] for p in props]
@@ -208,7 +220,7 @@ def main():
             "guard": "glass_easel_verif",
             "enable": "RUSTFLAGS --cfg glass_easel_verif via harness/.cargo/config.toml (the harness has path dependencies on /repo's two crates)",
             "baseline_off_cmd": "cd /repo && cargo test --workspace --no-fail-fast --offline",
-            "source_commits": ["8372a55"],
+            "source_commits": ["8372a55", "f196eab"],
             "add_only": True,
         },
         "engines": [{
